@@ -11,7 +11,7 @@ PROPERTY = "C14"
 LEVEL = "exploration"
 QUICK_N = 32
 SCENARIO_TIMEOUT = 420
-PROBES = ["ops", "merges", "tie_merges", "sortedness_faults", "abandoned_merges", "merges_with_projection", "projection_moves_score_column"]
+PROBES = ["ops", "merges", "tie_merges", "sortedness_faults", "abandoned_merges", "merges_with_projection", "projection_moves_score_column", "tiny_sortedness_faults"]
 RULE = (
     "Hypothesis rule-based state machine run outside pytest, one process per seed: materialise 1-8 sorted runs (descending "
     "or ascending, exact ties within and across runs from a small value pool, single-row runs, csv/parquet, 0-2 extra typed "
